@@ -221,6 +221,19 @@ func c02WriteRead(prog *MProgram) []Harness {
 	return append(structHarnesses(prog, "H_C02_write_", rng(0, 1), rng(0, 2)), structHarnesses(prog, "H_C02_read_", rng(0, 1), rng(0, 2))...)
 }
 
+// c02KeepUnknown: under keep_unknown_fields the unknown field is not skipped but stored by the
+// unknown-fields runtime (generator/golang/extension/unknown): the write/read harnesses plus the
+// unknown-field harness of every struct-like but the container-heavy one.
+func c02KeepUnknown(prog *MProgram) []Harness {
+	hs := c02WriteRead(prog)
+	for _, h := range structHarnesses(prog, "H_C02_unknown_", nil, nil) {
+		if h.Func != "H_C02_unknown_Containers" {
+			hs = append(hs, h)
+		}
+	}
+	return hs
+}
+
 func init() {
 	register(&Prop{
 		ID: "C02", QuickBudget: 25 * time.Minute, ThoroughBudget: 90 * time.Minute,
@@ -233,7 +246,7 @@ func init() {
 			genVariant("presentation", "reorder_fields,nil_safe,gen_setter,frugal_tag,gen_db_tag,json_enum_as_text,typed_enum_string,compatible_names,reserve_comments,gen_deep_equal,json_stringer", genOpts{}, "zzgen/a", entryC02, c02WriteRead),
 			genVariant("golint", "naming_style=golint", genOpts{}, "zzgen/a", entryC02, c02WriteRead),
 			genVariant("apache", "naming_style=apache", genOpts{}, "zzgen/a", entryC02, c02WriteRead),
-			genVariant("keep_unknown_fields", "keep_unknown_fields", genOpts{}, "zzgen/a", entryC02, c02WriteRead),
+			genVariant("keep_unknown_fields", "keep_unknown_fields", genOpts{}, "zzgen/a", entryC02, c02KeepUnknown),
 			genVariantCorpus("ext-shapes", "", genOpts{}, "zzgen/a", entryC02, c02WriteRead, corpusExt),
 			genVariant("enum_as_int_32", "enum_as_int_32", genOpts{EnumAsInt32: true}, "zzgen/a", entryC02, c02WriteRead),
 		},
